@@ -95,6 +95,30 @@ func sessCallOf(v tla.Value) sessCall {
 	return c
 }
 
+// wasmOK: can the tinywasm build (only Output, From-Markdown, no fault injection) perform this call?
+func (c sessCall) wasmOK() bool {
+	return c.Op == "output" && c.Fam == "md" && c.Fault == "none" && !c.has("massive") && !c.has("yaml")
+}
+
+// wasmReq: the call in the vocabulary of the tinywasm worker (no option-sequence mode there)
+func (c sessCall) wasmReq() wproto.Req {
+	rq := wproto.Req{Op: "output", Doc: sessDocs[c.Doc]}
+	if c.has("json") {
+		rq.Format = "json"
+	}
+	if c.has("dry") {
+		rq.DryRun = true
+		rq.Exts = []string{}
+		if c.has("extsDup") {
+			rq.Exts = []string{".x", ".y", ".x"}
+		}
+	}
+	if c.has("brL1") && c.has("brI1") {
+		rq.Branches = []string{"`--", "    ", "|--", "|   "}
+	}
+	return rq
+}
+
 func (c sessCall) req() wproto.Req {
 	rq := wproto.Req{Op: c.Op, OptMode: true, OptSeq: c.Opts}
 	if rq.OptSeq == nil {
@@ -158,6 +182,13 @@ type sessionRunner struct {
 
 func (s *sessionRunner) fresh() (*wproto.Proc, error) { return wproto.Start(s.self, s.args...) }
 
+func (s *sessionRunner) reqOf(c sessCall) wproto.Req {
+	if s.build == "/tinywasm" {
+		return c.wasmReq()
+	}
+	return c.req()
+}
+
 func sessKey(c sessCall) string { return c.String() }
 
 // aloneObs: the call as the first call of a fresh process (twice: a call whose two fresh runs differ gets no verdict)
@@ -176,7 +207,7 @@ func (s *sessionRunner) aloneObs(c sessCall) *sessObs {
 			s.r.Broken("session: cannot start a worker: %v", err)
 			return nil
 		}
-		obs[i] = sessObsOf(c, p.Call(c.req(), 60*time.Second))
+		obs[i] = sessObsOf(c, p.Call(s.reqOf(c), 60*time.Second))
 		p.Close()
 		s.r.Count("real_calls", 1)
 	}
@@ -211,7 +242,7 @@ func (s *sessionRunner) runSession(calls []sessCall) {
 	defer p.Close()
 	var rp wproto.Rep
 	for _, c := range calls {
-		rp = p.Call(c.req(), 60*time.Second)
+		rp = p.Call(s.reqOf(c), 60*time.Second)
 		s.r.Count("real_calls", 1)
 	}
 	s.r.Count("sessions_replayed", 1)
@@ -255,17 +286,27 @@ func clip(s string, n int) string {
 }
 
 // sessionPhase: the sessions of Session.tla whose last call is owned by this check's property
-func sessionPhase(r *evid.Run) {
+func sessionPhase(r *evid.Run) { sessionPhaseIn(r, "", "") }
+
+// sessionPhaseWasm: the sessions the tinywasm build can perform (Output calls only), in tinywasm worker processes: the
+// web page is one process that renders again and again
+func sessionPhaseWasm(r *evid.Run, bin string) { sessionPhaseIn(r, bin, "/tinywasm") }
+
+func sessionPhaseIn(r *evid.Run, bin, build string) {
 	self, err := os.Executable()
 	if err != nil {
 		r.Broken("os.Executable: %v", err)
 		return
 	}
+	args := []string{"worker"}
+	if bin != "" {
+		self, args = bin, nil
+	}
 	cfg, timeout := "MC_Session_quick.cfg", 10*time.Minute
 	if r.Tier == "thorough" {
 		cfg, timeout = "MC_Session_thorough.cfg", 30*time.Minute
 	}
-	s := &sessionRunner{r: r, self: self, args: []string{"worker"}, alone: map[string]*sessObs{}}
+	s := &sessionRunner{r: r, self: self, args: args, alone: map[string]*sessObs{}, build: build}
 	ch := make(chan []sessCall, 256)
 	var wg sync.WaitGroup
 	for i := 0; i < runtime.NumCPU(); i++ {
@@ -287,7 +328,14 @@ func sessionPhase(r *evid.Run) {
 			for _, v := range h {
 				calls = append(calls, sessCallOf(v))
 			}
-			if calls[len(calls)-1].owner() == r.ID {
+			if build == "/tinywasm" {
+				for _, c := range calls {
+					if !c.wasmOK() {
+						return nil
+					}
+				}
+				ch <- calls
+			} else if calls[len(calls)-1].owner() == r.ID {
 				ch <- calls
 			}
 			return nil
@@ -300,7 +348,7 @@ func sessionPhase(r *evid.Run) {
 	}
 	r.Count("states", res.Distinct)
 	r.Count("transitions", res.Generated)
-	fmt.Printf("model MC_Session/%s: %d distinct states, %d sessions ending in a call owned by %s replayed in fresh processes\n", cfg, res.Distinct, r.Get("sessions_replayed"), r.ID)
+	fmt.Printf("model MC_Session/%s: %d distinct states, %d sessions (last call owned by %s%s) replayed in fresh processes\n", cfg, res.Distinct, r.Get("sessions_replayed"), r.ID, build)
 }
 
 // proveSession: Session.tla holds for sessions of any length (TLAPS proof SessionProof.tla; the TLC runs bound the
